@@ -212,7 +212,11 @@ func LoadKnown(path string) ([]KnownFinding, error) {
 // baseKey strips the "#n" duplicate suffix.
 func baseKey(k string) string {
 	if i := strings.LastIndex(k, "#"); i > 0 {
-		return k[:i]
+		k = k[:i]
+	}
+	// the configuration suffix of non-primary configurations ("…@linux/386"): a finding is a finding in every configuration
+	if i := strings.LastIndex(k, "@"); i > 0 && !strings.Contains(k[i:], ":") {
+		k = k[:i]
 	}
 	return k
 }
